@@ -25,6 +25,12 @@ with what each resolver does (the "world" folded into the operation):
             | ["obj", [fld, ...]] | ["list", inn, "int"|"obj"|"sc"|"abs", [item, ...]]
     item    = ["null"] | ["int", z] | ["obj", [fld, ...]] | ["obj", [fld, ...], "T2"] (concrete type of
               an item of an "abs" list; default "T") | ["snull"] (in an "sc" list)
+            | ["raise", v] (any list kind): the resolver returns a *lazy iterable* (v = 0: a generator,
+              v = 1: an iterator object) that raises a ResolverError at this position, after having
+              yielded the items before it. Same policy and same Coq abstraction as ["bad"].
+    (model-free cases only -- the Coq tree language has no nested lists; see props/c09.py nested cases:)
+    body    = ... | ["list2", "llu"|"llr"|"llR", [row, ...]]    a list of lists of the union U
+    row     = ["null"] | ["row", [item, ...]]                    items as in an "abs" list
             | ["bad"] (in an "abs" list: a list of the union type U; the item cannot be completed --
               U.resolve_type raises a ResolverError for it). Library policy: the items before it are
               started and run to completion, the items after it are never started, then the whole
@@ -103,6 +109,7 @@ SHAPES = {  # shape name -> (GraphQL type, non-null?, kind)
     "lI": ("[Int!]", False, "lintn"), "lIn": ("[Int!]!", True, "lintn"),
     "lu": ("[U]", False, "labs"), "lun": ("[U]!", True, "labs"),      # U: a union whose resolve_type may raise
     "lU": ("[U!]", False, "labsn"), "lUn": ("[U!]!", True, "labsn"),
+    "llu": ("[[U]]", False, "ll"), "llr": ("[[U]!]", False, "ll"), "llR": ("[[U!]!]!", True, "ll"),   # lists of lists
     "s": ("Sc", False, "sc"), "sn": ("Sc!", True, "sc"),
     "ls": ("[Sc]", False, "lsc"), "lsn": ("[Sc]!", True, "lsc"),
     "lS": ("[Sc!]", False, "lscn"), "lSn": ("[Sc!]!", True, "lscn"),
@@ -240,6 +247,8 @@ def shape_of(fld):
         return "on" if nn else "o"
     if b[0] in ("snull", "sbad"):
         return "sn" if nn else "s"
+    if b[0] == "list2":
+        return b[1]
     if b[0] == "list":
         base = {"obj": "lo", "int": "li", "sc": "ls", "abs": "lu"}[b[2]]
         if b[1]:
@@ -282,7 +291,16 @@ def doc_of(program):
             # items of the union are T or T2: one selection on the interface both implement, i.e. one
             # AST field node executed against each concrete type
             sub = " { ... on IF { %s } }" % inner if b[2] == "abs" else " { %s }" % inner
-        elif SHAPES[shape_of(f)][2] in ("obj", "lobj", "lobjn", "labs", "labsn"):
+        elif b[0] == "list2":
+            merged = {}
+            for row in b[2]:
+                for it in (row[1] if row[0] == "row" else []):
+                    if it[0] == "obj":
+                        for g in it[1]:
+                            merged.setdefault(g["k"], g)
+            inner = sel([merged[k] for k in sorted(merged)], None, "T") if merged else "__typename"
+            sub = " { ... on IF { %s } }" % inner
+        elif SHAPES[shape_of(f)][2] in ("obj", "lobj", "lobjn", "labs", "labsn", "ll"):
             sub = " { __typename }"
         args = ""
         if f.get("args"):
@@ -401,6 +419,11 @@ def world_of(program):
             for i, it in enumerate(b[3]):
                 if it[0] == "obj":
                     level(p + (i,), it[1])
+        elif b[0] == "list2":
+            for i, row in enumerate(b[2]):
+                for j, it in enumerate(row[1] if row[0] == "row" else []):
+                    if it[0] == "obj":
+                        level(p + (i, j), it[1])
 
     level((), program["fields"])
     table["by_name"] = by_name
@@ -455,6 +478,35 @@ def _mw(next_, root, ctx, info, /, **args):
     return next_(root, ctx, info, **args)
 
 
+class _RaisingIterator:
+    """a lazy iterable that is not a generator: yields the items, then raises"""
+
+    def __init__(self, items):
+        self._items = list(items)
+        self._i = 0
+
+    def __iter__(self):
+        return self
+
+    def __next__(self):
+        if self._i < len(self._items):
+            self._i += 1
+            return self._items[self._i - 1]
+        raise ResolverError("resolver error: the iterable failed part-way")
+
+
+def _raising_iterable(items, variant):
+    if variant == 1:
+        return _RaisingIterator(items)
+
+    def gen():
+        for x in items:
+            yield x
+        raise ResolverError("resolver error: the generator failed part-way")
+
+    return gen()
+
+
 class _Run:
     def __init__(self, program, config, ctl):
         self.world = world_of(program)
@@ -491,8 +543,20 @@ class _Run:
             return ScBad(b[1])
         if b[0] == "obj":
             return self.obj(p, b[1])
+        if b[0] == "list2":
+            rows = []
+            for i, row in enumerate(b[2]):
+                if row[0] == "null":
+                    rows.append(None)
+                    continue
+                rows.append([None if it[0] == "null" else BadItem() if it[0] == "bad"
+                             else self.obj(p + (i, j), it[1], it[2] if len(it) > 2 else "T")
+                             for j, it in enumerate(row[1])])
+            return rows
         out = []
         for i, it in enumerate(b[3]):
+            if it[0] == "raise":
+                return _raising_iterable(out, it[1] if len(it) > 1 else 0)
             out.append(None if it[0] == "null" else it[1] if it[0] == "int"
                        else ScNull() if it[0] == "snull" else BadItem() if it[0] == "bad"
                        else self.obj(p + (i,), it[1], it[2] if len(it) > 2 else "T"))
@@ -851,7 +915,7 @@ def c_body(b, config):
     items = "INil"
     its = b[3]
     for j, it in enumerate(its):
-        if it[0] == "bad":      # the items after an untypable one are never started
+        if it[0] in ("bad", "raise"):      # the items after it are never started
             its = its[:j]
             break
     for it in reversed(its):
@@ -910,7 +974,7 @@ def bad_paths(program):
                 walk(p, g)
         elif b[0] == "list":
             for i, it in enumerate(b[3]):
-                if it[0] == "bad":
+                if it[0] in ("bad", "raise"):
                     out.append(p)
                     break
                 if it[0] == "obj":
